@@ -181,6 +181,30 @@ End Culprit.
 (** ---- one case ------------------------------------------------------------------------------------ *)
 Definition b01 (b : bool) : string := if b then "1" else "0".
 
+(** node kinds at which the engine's and Spark's primitive differ on this row (see Build.agree) *)
+Fixpoint disagree (en : env) (t : uexpr) : list string :=
+  match t with
+  | UCol _ | ULit _ | UPy _ => []
+  | UBin _ a b | UNse a b | UStartsWith a b | UEndsWith a b | UGetItemCol a b => disagree en a ++ disagree en b
+  | URBin _ _ a | UNeg a | UNot a | UIsNull a | UIsNotNull a | UIsin a _ | ULike a _ | UILike a _
+  | URlike a _ | UAlias a _ | UGetItemLit a _ => disagree en a
+  | UCast a ty => disagree en a ++
+      (if val_eqb (cast_to ty (ueval en a)) (cast_spark ty (ueval en a)) then [] else ["cast"])
+  | UBetween a b d => disagree en a ++ disagree en b ++ disagree en d
+  | USubstr a b d => disagree en a ++ disagree en b ++ disagree en d ++
+      (if val_eqb (substr3 substr_duck (ueval en a) (ueval en b) (ueval en d))
+                  (substr3 substr_spark (ueval en a) (ueval en b) (ueval en d)) then []
+       else match ueval en b with VInt 0 => ["substr"] | _ => ["substrneg"] end)
+  | UWhen bs => disagreeb en bs
+  end
+with disagreeb (en : env) (bs : ubranches) : list string :=
+  match bs with
+  | UBEnd => []
+  | UBElse e => disagree en e
+  | UBWhen c v r => disagree en c ++ disagree en v ++ disagreeb en r
+  end.
+Definition has_str (x : string) (l : list string) : bool := existsb (String.eqb x) l.
+
 Section Run.
 Variable c : cfg.
 Variable envs : list env.
@@ -191,7 +215,7 @@ Definition vals (f : env -> option val) : string :=
 (** fields, separated by ";":
     0 SQL text of the model's tokens | 1 canonical tree of the engine's reading (ERR = syntax error)
     | 2 canonical intended tree | 3 flags: in_class, safe, known, reparse=build
-    | 4 predicted engine values per row | 5 PySpark values per row | 6 unsafe subtrees kind(operand kinds), innermost first, joined by + ("#" = row outside the domain) *)
+    | 4 predicted engine values per row | 5 PySpark values per row | 7 per row: primitives on which engine and Spark differ there (c = cast of a fraction, s = substring position 0, n = negative position before the string, - = none) | 6 unsafe subtrees kind(operand kinds), innermost first, joined by + ("#" = row outside the domain) *)
 Definition check (t : uexpr) : string :=
   let b := build c t in
   let ts := print b in
@@ -211,6 +235,9 @@ Definition check (t : uexpr) : string :=
          b01 (match r with ROk e _ => String.eqb (raw e) (raw b) | _ => false end)];
     (if String.eqb mv sv then "=" else mv);
     sv;
-    String.concat "+" (culprits c t)
+    String.concat "+" (culprits c t);
+    String.concat "~" (map (fun en => let ds := disagree en t in
+                                 cat [(if has_str "cast" ds then "c" else ""); (if has_str "substr" ds then "s" else ""); (if has_str "substrneg" ds then "n" else "");
+                                      (match ds with [] => "-" | _ => "" end)]) envs)
   ].
 End Run.
